@@ -761,8 +761,14 @@ class Fx:
                 self.emit('write', p, e, fi, "open(mode=%r)" % (m,))
             return F(p, m)
         if ext in ('shutil.copy', 'shutil.copyfile', 'shutil.copy2', 'shutil.copytree'):
+            # follow_symlinks=False (copytree: symlinks=True) re-creates a source link at the destination: the "copy" is then another name of the link's target
+            fl = kwargs.get('follow_symlinks') if ext != 'shutil.copytree' else kwargs.get('symlinks')
+            links = isinstance(fl, K) and ((ext != 'shutil.copytree' and fl.v is False) or (ext == 'shutil.copytree' and fl.v is True))
+            maybe = fl is not None and not isinstance(fl, K)
             for p in self.as_path(arg(1, 'dst') or U):
                 self.emit('write', p, e, fi, '%s from %s' % (ext, arg(0, 'src')))
+                if links or maybe:
+                    self.emit('alias', p, e, fi, '%s(%s) from %s: a source that is a symbolic link is re-created as a link' % (ext, 'follow_symlinks=False' if ext != 'shutil.copytree' else 'symlinks=True', arg(0, 'src')))
             return U
         if ext in ('os.link', 'os.symlink'):
             # dst becomes another name of src: every later write through one name writes the other
